@@ -1141,7 +1141,7 @@ class Processor:
 
             elif isinstance(data, dict):
                 for key, val in data.items():
-                    if min_match <= key <= max_match:
+                    if min_match <= str(key) <= max_match:
                         yield NodeCoords(
                             val, data, key,
                             translated_path + YAMLPath.escape_path_section(
@@ -1150,7 +1150,7 @@ class Processor:
 
             elif isinstance(data, (CommentedSet, set)):
                 for ele in data:
-                    if min_match <= ele <= max_match:
+                    if min_match <= str(ele) <= max_match:
                         yield NodeCoords(
                             ele, data, ele,
                             translated_path + YAMLPath.escape_path_section(
